@@ -19,7 +19,8 @@ RULE = (
     "group's name duplicated before/after it, groups that are not valid PDS "
     "groups, nested levels), plain dict arguments; x 4 encoders x random "
     "options; each dumped twice through a reused encoder and once through "
-    "pvl.dumps. distinct = (dialect, case seed); non-trivial = all"
+    "pvl.dumps; a fifth as many modules in the multidict-based containers of "
+    "pvl.new through pvl.new.dumps. distinct = (dialect, case seed); non-trivial = all"
 )
 
 
@@ -84,6 +85,34 @@ def allowed_change(before, after, dialect):
 _INTERFERENCE = {}
 
 
+class UserFloat(float):
+    """A caller's own value class (a float that also carries units).  Some
+    OTHER encoder object may be told to treat it as a quantity
+    (add_quantity_cls is per encoder object); the encoder under watch was not."""
+
+    def __new__(cls, value, units="m"):
+        self = float.__new__(cls, value)
+        self.units = units
+        return self
+
+    @property
+    def value(self):
+        return float(self)
+
+    def __repr__(self):
+        return f"UserFloat({float(self)!r}, {self.units!r})"
+
+
+class UserThing:
+    """A caller's class no encoder knows anything about (TypeError expected)."""
+
+    def __init__(self, value, units="m"):
+        self.value, self.units = value, units
+
+    def __repr__(self):
+        return f"UserThing({self.value!r}, {self.units!r})"
+
+
 def interfere(pvl, dialect):
     col = pvl.collections
     if "m" not in _INTERFERENCE:
@@ -107,6 +136,17 @@ def interfere(pvl, dialect):
                 make_encoder(pvl, other, {"width": 40}).encode(_INTERFERENCE[which])
             except Exception:
                 pass
+    # other encoder objects (another dialect's and a second one of this
+    # dialect) learn about the caller's value classes; that is their business
+    for d in (DIALECTS[(DIALECTS.index(dialect) + 1) % 4], dialect):
+        try:
+            e2 = make_encoder(pvl, d, {})
+            e2.add_quantity_cls(UserFloat, "value", "units")
+            e2.add_quantity_cls(UserThing, "value", "units")
+            e2.encode(pvl.collections.PVLModule([("u", UserFloat(1.5, "s")),
+                                                 ("t", UserThing(2, "m"))]))
+        except Exception:
+            pass
 
 
 def one(rec, pvl, dialect, cfg, module, wit, via):
@@ -204,6 +244,11 @@ def regular_case(pvl, dialect, key):
                       "s": "two words", "h": col.PVLGroup([("z", 1)])}
         shape = "plain-dict"
     via = rng.choice(("encode", "dumps"))
+    if rng.random() < 0.12 and hasattr(module, "append"):
+        # an instance of a class of the caller's own
+        module.append("user_value", UserFloat(2.5, "km") if rng.random() < 0.6
+                      else UserThing(7, "s"))
+        shape += "+user-class"
     return cfg, module, shape, via
 
 
@@ -222,7 +267,9 @@ def case(rec, pvl, dialect, key, pristine=None):
     cfg, module, shape, via = regular_case(pvl, dialect, key)
     wit = {"dialect": dialect, "cfg": cfg, "seed": key, "shape": shape, "via": via,
            "module": repr(module)[:900]}
-    rec.count(f"shape[{shape}]")
+    rec.count(f"shape[{shape.split('+')[0]}]")
+    if "+" in shape:
+        rec.count("modules_with_a_value_of_a_user_class")
     texts = one(rec, pvl, dialect, cfg, module, wit, via)
     rec.case((dialect, key), True,
              sample=wit if rec.c["evaluations"] % 997 == 0 else None)
@@ -238,6 +285,90 @@ def case(rec, pvl, dialect, key, pristine=None):
                            "in_a_pristine_process": repr(ref)[:600]},
                           "the same module and options give another result in a "
                           "process that has written other labels before")
+
+
+def to_new(col, x):
+    """The same content in the multidict-based containers of pvl.new."""
+    names = {"PVLModule": col.PVLModuleNew, "PVLGroup": col.PVLGroupNew,
+             "PVLObject": col.PVLObjectNew}
+    if type(x).__name__ in names:
+        c = names[type(x).__name__]()
+        for k, v in list(x):
+            c.append(k, to_new(col, v))
+        return c
+    return x
+
+
+def snap_new(x):
+    if hasattr(x, "getall") and not isinstance(x, dict):
+        return (type(x).__name__.replace("New", ""),
+                tuple((k, snap_new(v)) for k, v in list(x.items())))
+    return snapshot(x)
+
+
+def new_case(rec, pvl, dialect, key):
+    """The containers of pvl.new (module, groups and objects built on the
+    third-party multidict) are modules too: same monitor, dumped through
+    pvl.new.dumps (PDS3, no further argument) or an encoder that was given the
+    new group and object classes."""
+    import pvl.new as new
+    rng = random.Random(key)
+    col = pvl.collections
+    cfg = gen_config(rng, dialect)
+    plain = gen_trigger(rng, col, dialect) if rng.random() < 0.7 else \
+        gen_module(rng, dialect, cfg["width"], col, plain_names_only=True).module
+    module = to_new(col, plain)
+    noargs = dialect == "PDS3" and rng.random() < 0.5
+    wit = {"dialect": dialect, "cfg": {} if noargs else cfg, "seed": key,
+           "containers": "pvl.new", "via": "pvl.new.dumps(m)" if noargs else
+           "pvl.new.dumps(m, encoder=E(group_class=PVLGroupNew, ...))",
+           "module": repr(plain)[:700]}
+    rec.case((dialect, key, "new"), True)
+    rec.count("new_container_cases")
+    snaps, texts = [snap_new(module)], []
+    for call in range(3):
+        try:
+            if noargs:
+                t = new.dumps(module)
+            else:
+                E = pvl.encoder
+                cls = {"PVL": E.PVLEncoder, "ODL": E.ODLEncoder,
+                       "PDS3": E.PDSLabelEncoder, "ISIS": E.ISISEncoder}[dialect]
+                t = new.dumps(module, encoder=cls(group_class=col.PVLGroupNew,
+                                                  object_class=col.PVLObjectNew, **cfg))
+        except (ValueError, TypeError) as e:
+            t = ("refused", type(e).__name__)
+        except Exception as e:
+            t = ("raised", type(e).__name__, str(e)[:120])
+        texts.append(t)
+        snaps.append(snap_new(module))
+    feats = {"containers": "pvl.new",
+             "top_level_groups": any(v[0] == "PVLGroup" for _, v in snaps[0][1]
+                                     if isinstance(v, tuple))}
+    for idx in (1, 2, 3):
+        ok, conv = allowed_change(snaps[idx - 1], snaps[idx], dialect)
+        if conv:
+            rec.count("new_container_conversions", conv)
+        if not ok:
+            rec.violation(CHECK, dialect, "argument-damaged-by-dump",
+                          {**feats, "call": idx},
+                          {**wit, "before": repr(snaps[idx - 1])[:700],
+                           "after": repr(snaps[idx])[:700]},
+                          f"call {idx}: {snaps[idx-1]!r:.300} -> {snaps[idx]!r:.300}")
+            return
+    for later in (1, 2):
+        if texts[0] != texts[later]:
+            kind = lambda t: "text" if isinstance(t, str) else t[0]  # noqa: E731
+            rec.violation(CHECK, dialect, "second-dump-differs",
+                          {**feats, "first": kind(texts[0]), "second": kind(texts[later])},
+                          {**wit, "t1": texts[0], "t2": texts[later], "call": later + 1},
+                          f"{texts[0]!r:.300} != {texts[later]!r:.300}")
+            return
+    if isinstance(texts[0], str):
+        rec.count("new_container_texts_compared")
+    elif texts[0][0] == "raised":
+        rec.violation(CHECK, dialect, "dump-raised-not-ValueError-TypeError",
+                      {**feats, "exc": texts[0][1]}, wit, str(texts[0]))
 
 
 def build_case(pvl, dialect, key):
@@ -317,6 +448,8 @@ def shard(i, n, tier, seed, rec, hb):
                 # (thorough: every 8th case is compared with the pristine copy)
                 use = pristine if tier == "quick" or (j // n) % 8 == 0 else None
                 case(rec, pvl, dialect, f"C13-{seed}-{dialect}-{j}", use)
+                if j % 5 == 0:
+                    new_case(rec, pvl, dialect, f"C13-new-{seed}-{dialect}-{j}")
     finally:
         pristine.close()
     if i < len(DIALECTS):
@@ -328,6 +461,9 @@ def finish_kwargs(rec, tier):
                                    "in_place_group_to_object_conversions",
                                    "shape[trigger]", "shape[plain-dict]",
                                    "pristine_reference_comparisons",
+                                   "new_container_texts_compared",
+                                   "modules_with_a_value_of_a_user_class",
+                                   "new_container_conversions",
                                    "first_dumps_compared_with_a_pristine_process"))
 
 
